@@ -1,4 +1,5 @@
 import HbsModel.Lemmas.RawBlock
+import HbsModel.Lemmas.GrammarNF
 /-
   `{{name}}` for EVERY identifier: any non-empty run of `symbol_char`s that does not begin with `else`.
   One element of `template` – the pairs expression, reference, path_inline, path_id – wherever it stands and
@@ -318,25 +319,40 @@ theorem invert_prefix_fail (c0 : Char) (x : Str) (q : Nat) (hc : symChar c0 = tr
     exact Ev.choice_right (Ev.str_fail helse) (Ev.str_fail (matchStr_head_ne _ _ _ _ _ (symChar_ne hc (by decide))))
   exact (Ev.seq_fail2 (F := 12) hB ((skip_at c0 x hws (q + 2)).weaken (by omega)) (hitem.weaken (by omega))).weaken (by omega)
 
-theorem invert_tag_def : rules .r_invert_tag = ⟨.normal,
+theorem invert_tag_nf : unfoldS rules keepSilent 8 (rules .r_invert_tag).body =
     .seq (.seq (.seq (.seq (.seq (.negPred (.rule .r_escape)) (.str ['{', '{'])) (.opt (.rule .r_leading_tilde_to_omit_whitespace)))
-      (.rule .r_invert_tag_item)) (.opt (.rule .r_trailing_tilde_to_omit_whitespace))) (.str ['}', '}'])⟩ := rfl
+      (.rule .r_invert_tag_item)) (.opt (.rule .r_trailing_tilde_to_omit_whitespace))) (.str ['}', '}']) := rfl
 
-theorem invert_chain_tag_def : rules .r_invert_chain_tag = ⟨.normal,
+theorem invert_chain_tag_nf : unfoldS rules keepSilent 8 (rules .r_invert_chain_tag).body =
     .seq (.seq (.seq (.seq (.seq (.seq (.negPred (.rule .r_escape)) (.str ['{', '{'])) (.opt (.rule .r_leading_tilde_to_omit_whitespace)))
-      (.rule .r_invert_tag_item)) (.rule .r_exp_line)) (.opt (.rule .r_trailing_tilde_to_omit_whitespace))) (.str ['}', '}'])⟩ := rfl
+      (.rule .r_invert_tag_item)) (.rule .r_exp_line)) (.opt (.rule .r_trailing_tilde_to_omit_whitespace))) (.str ['}', '}']) := rfl
 
-theorem expression_def : rules .r_expression = ⟨.normal,
+/-- neither `{{else}}` nor `{{else …}}` begins where the common prefix of the two fails -/
+theorem invert_tags_fail (c0 : Char) (x : Str) (p : Nat)
+    (hpre : E 20 .nonAtomic (.seq (.seq (.seq (.negPred (.rule .r_escape)) (.str ['{', '{']))
+      (.opt (.rule .r_leading_tilde_to_omit_whitespace))) (.rule .r_invert_tag_item)) ⟨p, '{' :: '{' :: c0 :: x⟩ .fail) :
+    E 34 .nonAtomic (.negPred (.choice (.rule .r_invert_tag) (.rule .r_invert_chain_tag))) ⟨p, '{' :: '{' :: c0 :: x⟩
+      (.ok ⟨p, '{' :: '{' :: c0 :: x⟩ []) := by
+  have hinv : E 32 .nonAtomic (.rule .r_invert_tag) ⟨p, '{' :: '{' :: c0 :: x⟩ .fail :=
+    Ev.rule_fail (E.of_nf (atom := .nonAtomic) .r_invert_tag invert_tag_nf
+      (Ev.seq_fail1 (F := 22) (Ev.seq_fail1 (F := 21) (hpre.weaken (by omega)))))
+  have hchain : E 32 .nonAtomic (.rule .r_invert_chain_tag) ⟨p, '{' :: '{' :: c0 :: x⟩ .fail :=
+    Ev.rule_fail (E.of_nf (atom := .nonAtomic) .r_invert_chain_tag invert_chain_tag_nf
+      (Ev.seq_fail1 (F := 22) (Ev.seq_fail1 (F := 21) (Ev.seq_fail1 (F := 20) hpre))))
+  exact Ev.negPred_ok (F := 33) (Ev.choice_right (F := 32) hinv hchain)
+
+/-- the body of `expression`, silent helper rules (if any) unfolded -/
+theorem expression_nf : unfoldS rules keepSilent 8 (rules .r_expression).body =
     .seq (.seq (.seq (.seq (.seq (.negPred (.choice (.rule .r_invert_tag) (.rule .r_invert_chain_tag))) (.str ['{', '{']))
       (.opt (.rule .r_leading_tilde_to_omit_whitespace)))
       (.choice (.seq (.rule .r_identifier) (.repOnce (.choice (.rule .r_hash) (.rule .r_helper_parameter)))) (.rule .r_name)))
-      (.opt (.rule .r_trailing_tilde_to_omit_whitespace))) (.str ['}', '}'])⟩ := rfl
+      (.opt (.rule .r_trailing_tilde_to_omit_whitespace))) (.str ['}', '}']) := rfl
 
 theorem name_def : rules .r_name = ⟨.silent, .choice (.rule .r_subexpression) (.rule .r_reference)⟩ := rfl
 
 /-- the rule `expression` over `{{name}}` -/
 theorem expression_name_ok (nm tail : Str) (h : IdentName nm) (p : Nat) :
-    E (nm.length + 70) .nonAtomic (.rule .r_expression) ⟨p, identSrc nm ++ tail⟩
+    E (nm.length + 80) .nonAtomic (.rule .r_expression) ⟨p, identSrc nm ++ tail⟩
       (.ok ⟨p + (nm.length + 4), tail⟩ [⟨some .r_expression, p, p + (nm.length + 4)⟩, ⟨some .r_reference, p + 2, p + 2 + nm.length⟩,
         ⟨some .r_path_inline, p + 2, p + 2 + nm.length⟩, ⟨some .r_path_id, p + 2, p + 2 + nm.length⟩]) := by
   obtain ⟨c0, t, hnm⟩ := List.exists_cons_of_ne_nil h.ne
@@ -350,16 +366,7 @@ theorem expression_name_ok (nm tail : Str) (h : IdentName nm) (p : Nat) :
     rw [hrest] at this
     rw [this, h.notElse]; rfl
   have hpre := invert_prefix_fail c0 x p hc0 helse
-  -- neither `{{else}}` nor `{{else …}}`
-  have hinv : E 24 .nonAtomic (.rule .r_invert_tag) ⟨p, '{' :: '{' :: c0 :: x⟩ .fail := by
-    apply Ev.rule_fail
-    rw [invert_tag_def]
-    exact Ev.seq_fail1 (F := 22) (Ev.seq_fail1 (F := 21) (hpre.weaken (by omega)))
-  have hchain : E 24 .nonAtomic (.rule .r_invert_chain_tag) ⟨p, '{' :: '{' :: c0 :: x⟩ .fail := by
-    apply Ev.rule_fail
-    rw [invert_chain_tag_def]
-    exact Ev.seq_fail1 (F := 22) (Ev.seq_fail1 (F := 21) (Ev.seq_fail1 (F := 20) hpre))
-  have hneg := Ev.negPred_ok (F := 25) (Ev.choice_right (F := 24) hinv hchain)
+  have hneg := invert_tags_fail c0 x p hpre
   have hA := Ev.seq_ok (F := nm.length + 60) (hneg.weaken (by omega))
     ((skip_at '{' ('{' :: c0 :: x) (by decide) p).weaken (by omega))
     (Ev.str_ok (F := nm.length + 59) (s := ['{', '{']) (st' := ⟨p + 2, c0 :: x⟩) (by simp [matchStr]))
@@ -398,9 +405,9 @@ theorem expression_name_ok (nm tail : Str) (h : IdentName nm) (p : Nat) :
   have hEnd := Ev.seq_ok (F := nm.length + 65) (hD.weaken (by omega))
     ((skip_at '}' ('}' :: tail) (by decide) (p + 2 + nm.length)).weaken (by omega))
     (Ev.str_ok (F := nm.length + 64) (s := ['}', '}']) (st' := ⟨p + 2 + nm.length + 2, tail⟩) (by simp [matchStr]))
-  have hr := Ev.rule_ok (G := rules) (ws := ws) (atom := .nonAtomic) (r := Rule.r_expression) (F := nm.length + 66)
+  have hr := Ev.rule_ok (G := rules) (ws := ws) (atom := .nonAtomic) (r := Rule.r_expression) (F := nm.length + 65 + 1 + 8)
     (st := ⟨p, identSrc nm ++ tail⟩) (st' := ⟨p + 2 + nm.length + 2, tail⟩)
-    (by rw [expression_def, hsrc]; exact hEnd)
+    (by rw [hsrc]; exact E.of_nf (atom := .nonAtomic) .r_expression expression_nf hEnd)
   have hty2 : (rules .r_expression).ty = .normal := rfl
   simp only [hty2] at hr
   have e1 : p + 2 + nm.length + 2 = p + (nm.length + 4) := by omega
@@ -408,14 +415,14 @@ theorem expression_name_ok (nm tail : Str) (h : IdentName nm) (p : Nat) :
   exact (by simpa using hr : E _ _ _ _ _).weaken (by omega)
 
 /-- **`{{name}}` is one element of `template`** – for every identifier, wherever it stands, whatever follows -/
-theorem name_tagAt (nm : Str) (h : IdentName nm) : TagAt (identSrc nm) (nm.length + 90) (identToks nm.length) := by
+theorem name_tagAt (nm : Str) (h : IdentName nm) : TagAt (identSrc nm) (nm.length + 100) (identToks nm.length) := by
   intro p tail
   have hexp := expression_name_ok nm tail h p
   have hraw : E 40 .nonAtomic (.rule .r_raw_text) ⟨p, identSrc nm ++ tail⟩ .fail := by
     have := raw_text_open_fail p (nm ++ ['}', '}'] ++ tail)
     simpa [identSrc] using this
   rw [templateAlt_eq, altsBefore_eq]
-  have h2 := Ev.choice_right (F := nm.length + 71) (hraw.weaken (by omega)) (hexp.weaken (by omega))
+  have h2 := Ev.choice_right (F := nm.length + 81) (hraw.weaken (by omega)) (hexp.weaken (by omega))
   have h4 := Ev.choice_left (b := .rule .r_helper_block) (Ev.choice_left (b := .rule .r_html_expression) h2)
   unfold alts4
   have := Ev.choice_left (b := .rule .r_partial_block) (Ev.choice_left (b := .rule .r_partial_expression)
@@ -423,7 +430,7 @@ theorem name_tagAt (nm : Str) (h : IdentName nm) : TagAt (identSrc nm) (nm.lengt
       (Ev.choice_left (b := .rule .r_hbs_comment_compact) (Ev.choice_left (b := .rule .r_hbs_comment)
         (Ev.choice_left (b := .rule .r_raw_block) h4))))))
   have hlen : (identSrc nm).length = nm.length + 4 := by simp [identSrc]
-  have := this.weaken (F' := nm.length + 90) (by omega)
+  have := this.weaken (F' := nm.length + 100) (by omega)
   simpa [identToks, shiftTok, hlen, Nat.add_comm, Nat.add_left_comm, Nat.add_assoc] using this
 
 end Hbs.PlainText
